@@ -11,7 +11,7 @@ LEVEL = "exploration"
 STATUSES = ["clean", "modified-unstaged", "modified-staged", "modified-both", "added", "deleted-unstaged", "deleted-staged", "renamed", "untracked"]
 RULE = ("Real git repositories. A (enumerated, both tiers): every status git can report for a file (clean, modified-unstaged, "
         "modified-staged, modified-both, added, deleted-unstaged, deleted-staged, renamed, renamed-then-edited, untracked) x {pattern file (named plainly, as ./path or through a glob), "
-        "unrelated file} x --allow-dirty on/off x file in the top directory or a sub-directory (160 cases). B (Hypothesis): "
+        "unrelated file} x --allow-dirty on/off x file in the top directory or a sub-directory x with/without a (no-op) pre-commit hook (320 cases). B (Hypothesis): "
         "1..4 files (pattern files and unrelated files, sub-directories) with independent statuses, --allow-dirty on/off. "
         "The status text is whatever the real `git status --porcelain` prints. Oracle: expected abort iff (some file has a "
         "tracked change and not --allow-dirty) or (some pattern file has any uncommitted change, untracked included). Abort "
@@ -61,8 +61,8 @@ def apply_status(repo, path, status, is_pattern):
         projgen.write_file(repo, new, content(OLD, "EDITED") if is_pattern else "edited after rename\n")
 
 
-def run_case(files, allow_dirty):
-    """files: [{"path", "pattern": bool, "status"}]"""
+def run_case(files, allow_dirty, pre_hook=False):
+    """files: [{"path", "pattern": bool, "status"}]; pre_hook: a no-op pre-commit hook is configured"""
     tmp = tempfile.mkdtemp(prefix="c11_")
     try:
         pattern_files = [f["path"] for f in files if f["pattern"]]
@@ -72,6 +72,10 @@ def run_case(files, allow_dirty):
                 keys.append(f.get("key", f["path"]))
         spec = {"current_version": OLD, "version_pattern": "MAJOR.MINOR.PATCH", "options": {"commit": True, "tag": True, "push": False},
                 "files": [[k, ["version = {version}"]] for k in keys]}
+        if pre_hook:
+            projgen.write_file(tmp, "hooks/pre.sh", "#!/bin/sh\nexit 0\n")
+            os.chmod(os.path.join(tmp, "hooks/pre.sh"), 0o755)
+            spec["options"]["pre_commit_hook"] = "hooks/pre.sh"
         projgen.write_file(tmp, "bumpver.toml", projgen.toml_config(spec))
         projgen.write_file(tmp, "keep.txt", "keep\n")
         for f in files:
@@ -145,13 +149,14 @@ def matrix(tier):
                             f["key"] = "./" + path
                         elif style == "glob":
                             f["key"] = ("src/pkg/" if sub else "") + "*a.txt"  # a.txt and renamed_a.txt, nothing else
-                        out.append({"files": [f] + ([] if is_pattern else [{"path": "a.txt", "pattern": True, "status": "clean"}]),
-                                    "allow_dirty": allow})
+                        for hook in (False, True):
+                            out.append({"files": [dict(f)] + ([] if is_pattern else [{"path": "a.txt", "pattern": True, "status": "clean"}]),
+                                        "allow_dirty": allow, "pre_hook": hook})
     return out
 
 
 def check_matrix(case):
-    return run_case(case["files"], case["allow_dirty"])
+    return run_case(case["files"], case["allow_dirty"], case.get("pre_hook", False))
 
 
 NAMES = ["a.txt", "b.cfg", "src/c.py", "src/deep/d.txt", "docs/e.md", "f"]
@@ -166,11 +171,11 @@ def build(d):
         if f["pattern"] and d.chance(1, 3):
             f["key"] = os.path.join(os.path.dirname(nm), "*" + os.path.basename(nm)) if d.bool() else "./" + nm
         files.append(f)
-    return {"files": files, "allow_dirty": d.bool()}
+    return {"files": files, "allow_dirty": d.bool(), "pre_hook": d.chance(1, 3)}
 
 
 def check_b(case):
-    return run_case(case["files"], case["allow_dirty"])
+    return run_case(case["files"], case["allow_dirty"], case.get("pre_hook", False))
 
 
 def selftest():
@@ -185,7 +190,7 @@ PARTS = [
 
 MANIFEST = {
     "text": "Real git: the complete matrix of file statuses x {pattern file, unrelated file} x --allow-dirty x directory depth "
-            "(160 cases, both tiers) plus generated compositions of up to four files; abort/proceed is predicted from the "
+            "(320 cases, both tiers) plus generated compositions of up to four files; abort/proceed is predicted from the "
             "property's rule, and tree, index, HEAD, tags and the committed content of pattern files are inspected with git.",
     "note": "Real git 2.39 produces the status text. Plain ASCII file names without blanks. One bump scenario.",
     "technique": "exhaustive enumeration of the status matrix + property-based testing (Hypothesis) on real git repositories; rule-derived oracle",
